@@ -18,25 +18,29 @@ SR = f"{RSYNCR}:serve_rsync"
 
 class PROP(Prop):
     id = "C17"
-    title = ("over an abstract file system: the receiver's decision table for file / link-placeholder messages (request exactly when content may differ, md5 only when size is equal and mtime differs, "
+    title = ("over an abstract file system: the receiver's recursive walk (directory made and owner-writable, recursion per listed name, unlisted entries removed exactly with delete, nothing outside the path touched, "
+             "queued paths distinct), its decision table for file / link-placeholder messages (request exactly when content may differ, md5 only when size is equal and mtime differs, "
              "a mode-only difference sets the source's permission bits and nothing else, what stands in the way is removed), remove(), the body of serve_rsync (one data message and one ack per queued file, "
              "content / chmod / utime per file, every link message becomes a symlink at the corresponding place, completion marker); the sender's per-path broadcast (mode, mtime, size of a file; list message of a "
              "directory; link classification as a function of (target, sourcedir) only), _send_item (no content when the checksum matches, reported exactly when sent), _process_link")
     design_ref = "DESIGN.md section 4, C17"
     tag_worlds = True
     targets = [f"{SR}.remove", f"{SR}.receive_directory_structure#entry", SR,
+               f"walk::{SR}.receive_directory_structure#walk",
                f"snd::{RSYNC}:RSync._send_link", f"snd::{RSYNC}:RSync._send_link_structure", f"snd::{RSYNC}:RSync._send_directory_structure", f"snd::{RSYNC}:RSync._send_directory",
                f"snd::{RSYNC}:RSync._send_item", f"snd::{RSYNC}:RSync._process_link"]
-    heavy = {SR: 12, f"snd::{RSYNC}:RSync._send_link_structure": 2, f"snd::{RSYNC}:RSync._send_item": 4, f"{SR}.receive_directory_structure#entry": 4}
-    extra_worlds = {"snd": cr.declare_sender}
+    heavy = {f"walk::{SR}.receive_directory_structure#walk": 16, SR: 12, f"snd::{RSYNC}:RSync._send_link_structure": 2, f"snd::{RSYNC}:RSync._send_item": 4, f"{SR}.receive_directory_structure#entry": 4}
+    extra_worlds = {"snd": cr.declare_sender, "walk": cr.declare_walk_loops}
     assumptions = [
         "abstract file system: total maps path -> kind / permission bits / mtime / content / link target; os.lstat, unlink, makedirs, chmod, utime, symlink, readlink, listdir, open/read/write, shutil.rmtree(ignore_errors) are "
         "assumed contracts on these maps (the receiver owns the target tree: chmod/utime of an existing entry succeed; rmtree removes everything below its argument); mtimes are opaque integer stamps",
         "os.path.join(a, b) is a + '/' + b (POSIX, entry names without '/'); os.path.relpath is characterised for normalised absolute paths, and a relative path is resolved against the working directory; "
         "link targets and the source directory are normalised (no '.', '..', empty segments); POSIX only (the ntpath branch is not taken)",
         "md5 is injective (hash collisions ignored)",
-        "the recursive walk of receive_directory_structure over directory messages is ASSUMED by a summary contract (queues files with distinct paths below destdir, consumes a prefix of the inbox, touches neither "
-        "contents, times nor link targets): its directory branch (makedirs, chmod | 0o700, recursion, deletion loop) is exercised only by the bounded native oracle",
+        "the recursive walk (receive_directory_structure, all three message kinds, with invariants for the names loop and the deletion loop) is verified in the world `walk`; the body of serve_rsync uses that contract "
+        "at its call site. Recursion: partial correctness (each call consumes at least one message; no termination measure is proved)",
+        "directory messages carry distinct entry names without '/' (what _send_directory sends: os.listdir names); os.listdir lists exactly the existing entries with such names; "
+        "seg(P, x) - the first path segment of x after P/ - with its two defining facts (two different entry names have no common descendant path): assumed string lemmas, differentially checked",
         "one sender and one receiver per channel, FIFO delivery of items unchanged (C01, C02); no concurrent modification of either tree; link messages name pairwise non-nested paths (leaves of one source tree)",
         "messages are opaque items with a tag and projections (constructors fm/dm/lk/d2u with projection axioms); Python's None is one value (link placeholder and 'no content' answer)",
         "_paths / _to_send bookkeeping for progress callbacks is executed but not specified",
